@@ -697,6 +697,16 @@ func (db *DB) rollbackJournalSegment(ctx context.Context, r *JournalReader, dbFi
 			return fmt.Errorf("read frame(%d): %w", i, err)
 		}
 
+		// Follow SQLite's playback rules for page numbers that cannot belong to
+		// the transaction: a record for page zero or the lock page ends the
+		// playback of the segment and a record for a page beyond the original
+		// database size is skipped (the file is cut back to that size afterwards).
+		if pgno == 0 || pgno == ltx.LockPgno(db.pageSize) {
+			return nil
+		} else if pgno > r.commit {
+			continue
+		}
+
 		// Write data to the database file.
 		if err := db.writeDatabasePage(dbFile, pgno, data, true); err != nil {
 			return fmt.Errorf("write to database (pgno=%d): %w", pgno, err)
